@@ -669,13 +669,15 @@ def leaf_diff(m1: ir.Model, m2: ir.Model) -> list:
             for dc in n.device_configurations:
                 if dc.configuration is not None and id(dc.configuration) not in regs:
                     _cmp(diffs, "node.device_configuration.unresolved", dc.configuration.name, None)
-    _graph_leaf_diff(diffs, "", m1.graph, m2.graph, devcfg)
     _cmp(diffs, "functions.keys", list(m1.functions), list(m2.functions))
+    _graph_leaf_diff(diffs, "", m1.graph, m2.graph, devcfg)
     for fi, ((k, f1), f2) in enumerate(zip(m1.functions.items(), m2.functions.values())):
         p = f"function[{fi}]."
-        _cmp(diffs, p + "ident", (f1.domain, f1.name, f1.overload, dict(f1.opset_imports)), (f2.domain, f2.name, f2.overload, dict(f2.opset_imports)))
-        _cmp(diffs, p + "attributes", [_attr_payload(a) for a in f1.attributes.values()], [_attr_payload(a) for a in f2.attributes.values()])
-        _graph_leaf_diff(diffs, p, f1.graph, f2.graph, devcfg, is_function=True)
+        fd: list = []        # each function has its own (capped) list, so that none hides another's differences
+        _cmp(fd, p + "ident", (f1.domain, f1.name, f1.overload, dict(f1.opset_imports)), (f2.domain, f2.name, f2.overload, dict(f2.opset_imports)))
+        _cmp(fd, p + "attributes", [_attr_payload(a) for a in f1.attributes.values()], [_attr_payload(a) for a in f2.attributes.values()])
+        _graph_leaf_diff(fd, p, f1.graph, f2.graph, devcfg, is_function=True)
+        diffs.extend(fd)
     return diffs
 
 
